@@ -86,6 +86,7 @@ var props = map[string]propCfg{
 	"C14": {Pkg: "checks/c14", Level: "exploration", Passes: []pass{
 		{Name: "race", Race: true, Shards: 48, ShardsThorough: 256, TimeoutS: 900, TZ: []string{"UTC"}},
 		{Name: "plain", Shards: 48, ShardsThorough: 256, TimeoutS: 600, TZ: []string{"UTC"}},
+		{Name: "asan", Tier: "thorough", Asan: true, Shards: 48, TimeoutS: 1800, TZ: []string{"UTC"}},
 	}, RaceFiles: codecRace},
 	"C01": {Pkg: "checks/c01", Level: "exploration", Passes: []pass{
 		{Name: "plain", Shards: 16, TimeoutS: 600, TZ: []string{"UTC", "Asia/Shanghai"}},
@@ -99,6 +100,7 @@ var props = map[string]propCfg{
 	"C04": {Pkg: "checks/c04", Level: "exploration", Passes: []pass{
 		{Name: "plain", Shards: 16, TimeoutS: 1200, CaseTimeoutS: 30, HangSig: "hang", UlimitVKB: 6 << 20, TZ: []string{"UTC"}},
 		{Name: "race", Tier: "thorough", Race: true, Shards: 16, TimeoutS: 1800, CaseTimeoutS: 120, HangSig: "hang", TZ: []string{"UTC"}},
+		{Name: "asan", Tier: "thorough", Asan: true, Shards: 16, TimeoutS: 2400, CaseTimeoutS: 300, HangSig: "hang", TZ: []string{"UTC"}, Env: []string{"VERIF_LIGHT=1"}},
 	}, RaceFiles: ioRace},
 	"C05": {Pkg: "checks/c05", Level: "exploration", Passes: []pass{
 		{Name: "plain", Shards: 16, TimeoutS: 900, TZ: []string{"UTC"}},
